@@ -249,3 +249,45 @@ Theorem C20_cmp_int64_three_way : forall a b, Cmp_sortmod_gen.cmp_int64_core a b
 Proof. exact CmpSortmodProofs.cmp_int64_core_cmp3. Qed.
 Print Assumptions C20_cmp_int64_three_way.
 
+
+(* ==== begin of block (the breakdown pipeline is an instance of the bay model) ==== *)
+(* The per-CPU pipeline above (section Breakdown of Emu/SortDefs.v: run_cbs, add_dirty, propagate, apply_writes,
+   cpu_event) is a hand-written special case of bay_propagate.  Emu/BayBreakdownDefs.v builds the same pipeline as a
+   WIRING of the general bay model (Emu/BayDefs.v, the model C06 ties to chan.c / bay.c / mux.c): mux0 with the custom
+   select function select_tr, default "unknown subsystem" and (when fx) mux_add_reselect on the task type; mux1 with
+   select_idle; the sort callback on tri as a callback copying tri into a sink channel.
+   Statement: for EVERY batch of writes of null / integer values to the three CPU channels (admissible or not), in
+   every state between two events, BayDefs.apply_writes + BayDefs.propagate on that wiring succeed, emit nothing, and
+   end in the wiring state whose SortDefs view (Emu/BayBreakdownRelDefs.v:wires_of) is what cpu_event returns. *)
+From OV Require Emu.EmuCoreDefs Emu.BayDefs Emu.BayBreakdownDefs Emu.BayBreakdownRelDefs Proofs.BayBreakdownProofs.
+
+Theorem C20_pipeline_is_bay_instance : forall fx BODY UNKNOWN PROG (s : BayBreakdownDefs.bdst) (b : list (cin * EmuCoreDefs.value)),
+  BayBreakdownRelDefs.Canon s -> BayBreakdownRelDefs.OKs s ->
+  exists s',
+    BayBreakdownDefs.bd_event fx BODY UNKNOWN PROG s (map BayBreakdownRelDefs.wop_of b)
+      = EmuCoreDefs.Ok (BayBreakdownDefs.bd_bay fx BODY UNKNOWN PROG s', nil, nil) /\
+    cpu_event fx BODY UNKNOWN PROG (BayBreakdownRelDefs.wires_of s) (map BayBreakdownRelDefs.emb_w b)
+      = Some (BayBreakdownRelDefs.wires_of s') /\
+    BayBreakdownRelDefs.Canon s' /\ BayBreakdownRelDefs.OKs s'.
+Proof. exact BayBreakdownProofs.pipeline_event. Qed.
+Print Assumptions C20_pipeline_is_bay_instance.
+
+(* histories: cpu_run is the iteration of chan_set* ; bay_propagate on the wiring *)
+Theorem C20_pipeline_run_is_bay_instance : forall fx BODY UNKNOWN PROG (h : list (list (cin * EmuCoreDefs.value))) (s : BayBreakdownDefs.bdst),
+  BayBreakdownRelDefs.Canon s -> BayBreakdownRelDefs.OKs s ->
+  exists s',
+    BayBreakdownRelDefs.bd_run (BayBreakdownDefs.bd_bay fx BODY UNKNOWN PROG s) (map (map BayBreakdownRelDefs.wop_of) h)
+      = EmuCoreDefs.Ok (BayBreakdownDefs.bd_bay fx BODY UNKNOWN PROG s') /\
+    cpu_run fx BODY UNKNOWN PROG (BayBreakdownRelDefs.wires_of s) (map (map BayBreakdownRelDefs.emb_w) h)
+      = Some (BayBreakdownRelDefs.wires_of s') /\
+    BayBreakdownRelDefs.Canon s' /\ BayBreakdownRelDefs.OKs s'.
+Proof. exact BayBreakdownProofs.pipeline_run. Qed.
+Print Assumptions C20_pipeline_run_is_bay_instance.
+
+(* the state after connect_cpu is such a state, and its view is w_init *)
+Theorem C20_pipeline_init_is_bay_instance :
+  BayBreakdownRelDefs.Canon BayBreakdownDefs.bd_init /\ BayBreakdownRelDefs.OKs BayBreakdownDefs.bd_init /\
+  BayBreakdownRelDefs.wires_of BayBreakdownDefs.bd_init = w_init.
+Proof. exact BayBreakdownProofs.init_canon. Qed.
+Print Assumptions C20_pipeline_init_is_bay_instance.
+(* ==== end of block (the breakdown pipeline is an instance of the bay model) ==== *)
